@@ -597,6 +597,88 @@ def witness(o, model):
     return t
 
 
+def replay_writer(what, dd, dm):
+    """Native: the writing half on the real classes - dump_msg / parse_hdr / append_msg / append_all over random valid messages of both
+    classes and versions, invalid ones and non-messages, on in-memory files with and without earlier content"""
+    import io, random
+    rnd = random.Random(2)
+
+    def rand_msg(valid=True):
+        m = dm.TxMsg() if rnd.random() < 0.5 else dm.RxMsg()
+        m.ver = rnd.choice((0, 1))
+        m.rand_hdr()
+        if isinstance(m, dm.RxMsg) and m.ver == 1 and rnd.random() < 0.3:
+            m.nope_ind, m.burst = True, None
+        else:
+            m.rand_burst()
+        if not valid:
+            m.fn = rnd.choice((-1, 2715648, None))
+        return m
+    bad = []
+    if what == "parse_hdr":
+        d = dd.DATADump()
+        for tag in range(256):
+            for ln in (0, 1, 255, 256, 0x1234, 65535):
+                hdr = bytes([tag, ln >> 8, ln & 255])
+                try:
+                    r = d.parse_hdr(hdr)
+                except Exception as e:
+                    r = "raises %s: %s" % (type(e).__name__, e)
+                if tag in (1, 2):
+                    ok = isinstance(r, tuple) and len(r) == 2 and type(r[0]) is (dm.TxMsg if tag == 1 else dm.RxMsg) and r[1] == ln
+                else:
+                    ok = r is False
+                if not ok:
+                    bad.append({"header": hdr.hex(), "observed": repr(r)[:80], "expected": "(message of the tag's class, %d)" % ln if tag in (1, 2) else False})
+        return {"confirmed": bool(bad), "observed": bad[:4] or "as specified", "expected": "class by tag, 16-bit big-endian length, False for an unknown tag"}
+    if what == "dump":
+        d = dd.DATADump()
+        for k in range(300):
+            valid = k % 5 != 0
+            m = rand_msg(valid)
+            try:
+                r = d.dump_msg(m)
+            except ValueError:
+                r = "ValueError"
+            except Exception as e:
+                r = "raises %s: %s" % (type(e).__name__, e)
+            if valid:
+                enc = m.gen_msg()
+                ok = isinstance(r, (bytes, bytearray)) and bytes(r) == bytes([1 if isinstance(m, dm.TxMsg) else 2, len(enc) >> 8, len(enc) & 255]) + bytes(enc)
+            else:
+                ok = r == "ValueError"
+            if not ok:
+                bad.append({"message": m.desc_hdr() if valid else "invalid fn %r" % (m.fn,), "observed": repr(r)[:80], "expected": "tag + len16 + encoding" if valid else "ValueError"})
+        for other in (object(), None, 5, b"x"):
+            try:
+                d.dump_msg(other)
+                bad.append({"message": repr(other), "observed": "record returned", "expected": "refused"})
+            except Exception:
+                pass
+        return {"confirmed": bool(bad), "observed": bad[:4] or "as specified", "expected": "tag + len16 + encoding; ValueError only for invalid messages; non-messages refused"}
+    for prior in (b"", b"\x01\x00\x06abcdef", bytes(range(200))):
+        for n in ((1,) if what == "append" else (0, 1, 2, 5)):
+            ms = [rand_msg() for _ in range(n)]
+            bio = io.BytesIO()
+            bio.write(prior)
+            bio.seek(rnd.choice((0, len(prior))))          # an 'a+b' file appends wherever the position is; BytesIO does not: position at the end
+            bio.seek(0, 2)
+            w = dd.DATADumpFile(bio)
+            try:
+                w.append_msg(ms[0]) if what == "append" else w.append_all(ms)
+            except Exception as e:
+                bad.append({"prior_octets": len(prior), "messages": n, "observed": "raises %s: %s" % (type(e).__name__, e)})
+                continue
+            want = prior
+            for m in ms:
+                enc = bytes(m.gen_msg())
+                want += bytes([1 if isinstance(m, dm.TxMsg) else 2, len(enc) >> 8, len(enc) & 255]) + enc
+            if bio.getvalue() != want:
+                bad.append({"prior_octets": len(prior), "messages": n, "observed": "%d octets" % len(bio.getvalue()), "expected": "%d octets: earlier content, then one record per message in order" % len(want)})
+            w.f = io.BytesIO()
+    return {"confirmed": bool(bad), "observed": bad[:4] or "as specified", "expected": "earlier content untouched, one record (tag, len16, encoding) per message in order"}
+
+
 def replay(payload):
     """Native: write n valid random messages with the real DATADumpFile, cut the file at the model's offset (mapped onto the real
     record boundaries), run the real reader and compare with the definition."""
@@ -609,6 +691,8 @@ def replay(payload):
     dm = toolkit("data_msg")
     import logging
     logging.disable(logging.CRITICAL)
+    if f.get("what") in ("dump", "parse_hdr", "append", "append_all"):
+        return replay_writer(f["what"], dd, dm)
     rnd = random.Random(1)
     n = max(1, min(6, f.get("nrec", 3)))
     msgs_ = []
